@@ -71,11 +71,14 @@ def run(ctx):
                 "array-API backend does not define them for ragged arguments), reference NumPy on the broadcast arguments, "
                 "xarray results compared by dimension NAME with the new dimension at the requested position; plus take with "
                 "negative (-1, -n), repeated and out-of-range (n, n+1, -n-1) indices, scalar and sequence, every axis from both "
-                "ends, on both backends - an out-of-range index must raise IndexError as NumPy does; "
+                "ends, on both backends - an out-of-range index must raise IndexError as NumPy does; plus array (op) PYTHON "
+                "SCALAR (True, 2, 9, 0.5, 2.0; scalar on the right and on the left) for add/subtract/multiply/divide/pow over "
+                "dtypes bool, int8, uint8, float32, float64, judged on RESULT DTYPE (NumPy 2 weak-scalar promotion) and values "
+                "(int8/uint8 wrap modulo 256); "
                 "each case evaluated on numpy "
                 "arrays and on DataArrays; non-trivial = more than one element involved; batchability of each variadic "
                 f"function decided by TLC on 1..{consts['BatchArgs']} arguments, every composition into consecutive batches",
-        "clauses": ["raised", "shape_differs", "value_differs", "index_error_not_raised", "dims_differ", "new_dimension_misplaced", "marked_but_not_batchable",
+        "clauses": ["raised", "shape_differs", "value_differs", "index_error_not_raised", "dtype_differs", "dims_differ", "new_dimension_misplaced", "marked_but_not_batchable",
                     "batchable_as_documented_but_not_marked", "documented_as_not_batchable_but_marked",
                     "model_contradicts_documentation"],
     })
@@ -91,7 +94,10 @@ def run(ctx):
             ctx.violate("marks:" + n, f"batchable marker: {n} (marked in the library: {marked}; the model decides by evaluating "
                         "f(f(b1),..,f(bk)) = f(all) on every composition)", {"marked": marked}, clause=n.split(":")[0])
     ctx.assumptions += [
-        "dtypes float64, bool and int8 only; bool (op) bool for the two-argument functions and var/std of int8 are not in the "
+        "scalar operands: bool array with a bool scalar, int scalars that do not fit the dtype, irrational powers, pow on bool "
+        "arrays (NumPy's operator shortcut for exponent 2 differs from np.power) and results float32 cannot hold exactly are "
+        "not in the domain; the promotion rule modelled is NumPy 2's (NEP 50), the installed version",
+        "dtypes float64, bool and int8 only (uint8 and float32 in the scalar-operand cases); bool (op) bool for the two-argument functions and var/std of int8 are not in the "
         "domain; other dtypes, float rounding, NaN/inf are not claimed (DESIGN.md section 8)",
         "values are exact small integers/rationals; a float is read back as the rational with denominator "
         "<= 4096 within 1e-9",
